@@ -692,15 +692,23 @@ def rnd_ent(rng: random.Random, n: int, plain_safe: bool) -> dict:
 
 def doc_cases(case_file: str, out: hlib.RecWriter, stats: dict) -> None:
     """Every (definition, options) pair TLC enumerated, built through the API and run."""
+    stats['cases'] = stats['unbuildable'] = 0
     for case in json.load(open(case_file)):
-        ent = build_ent(case['doc'])
+        try:
+            ent = build_ent(case['doc'])
+        except (ValueError, TypeError) as exc:
+            # a typed helper whose own parser does not take these arguments: not a value of the API
+            if not case['doc']['helpers']:
+                raise
+            stats['unbuildable'] += 1
+            continue
         rec = ent_record(ent, case['opts']['cs'], case['opts']['ls'], 'mc')
         if rec['orig'] != {**case['doc'], 'helpers': rec['orig']['helpers']}:
             # the built definition must be the model's one (helpers carry implementation detail 'v')
             diff = [k for k in case['doc'] if k != 'helpers' and rec['orig'].get(k) != case['doc'][k]]
             raise SystemExit(f'MACHINERY: built definition differs from the model case in {diff}')
         out.write(rec)
-        stats['cases'] = stats.get('cases', 0) + 1
+        stats['cases'] += 1
 
 
 def doc_random(out: hlib.RecWriter, stats: dict) -> None:
